@@ -24,7 +24,7 @@ Theorem C15_patch_single_op_rfc_partial : forall fo t o d',
 Proof. exact patch_single_op_rfc. Qed.
 Print Assumptions C15_patch_single_op_rfc_partial.
 
-Definition ex_fo : fops := {| f_add := Z.add; f_of_i := fun x => x; f_to_i := fun x => x; f_eq := Z.eqb |}.
+Definition ex_fo : fops := {| f_add := Z.add; f_of_i := fun x => x; f_to_i := fun x => x; f_eq := Z.eqb; f_fits := fun _ => true |}.
 
 Theorem C15_patch_single_op_rfc_refuted : exists fo t o d',
   rfc_kind (p_op o) /\ klidx_inv t /\ op_good o /\
@@ -350,11 +350,11 @@ Proof. cbv zeta. repeat split; vm_compute; reflexivity. Qed.
          C15_failed_move_loses_source_refuted (move and value-less replace are NOT atomic on the tree; the binary form is
          untouched by any failure: C15_patch_failure_unchanged). *)
 
-Definition lib_program_of (fo : fops) := lib_program lenient (f_eq fo) (f_add fo) (f_of_i fo) (f_to_i fo).
+Definition lib_program_of (fo : fops) := lib_program lenient (f_eq fo) (f_add fo) (f_of_i fo) (f_to_i fo) (f_fits fo).
 
 (* one operation of ANY kind on ANY document: exact against the library's complete reading, invariant re-established *)
 Theorem C15_patch_any_op_exact : forall fo t o, klidx_inv t -> op_good o ->
-  match lib_op lenient (f_eq fo) (f_add fo) (f_of_i fo) (f_to_i fo) (doc_val t) (sop_of o) with
+  match lib_op lenient (f_eq fo) (f_add fo) (f_of_i fo) (f_to_i fo) (f_fits fo) (doc_val t) (sop_of o) with
   | Some d' => fst (apply_op fo t o) = RcOk /\ doc_val (snd (apply_op fo t o)) = d' /\ klidx_inv (snd (apply_op fo t o))
   | None => fst (apply_op fo t o) <> RcOk /\ klidx_inv (snd (apply_op fo t o))
   end.
@@ -377,15 +377,41 @@ Theorem C15_patch_program_rfc : forall fo l t d',
 Proof. exact patch_program_rfc_all. Qed.
 Print Assumptions C15_patch_program_rfc.
 
-(* "an error otherwise" is false of the model and of the library: [1,2,3,4] with remove "/01" is no rfc6901 array index, the
-   library removes item 1 (replayed: rc=ok doc=[1,3,4]) *)
+(* "... and an error otherwise": since eca2cba array indices are read as rfc6901 reads them, and the library's reading differs from
+   the RFC only at the root and for a move into one's own child.  For every program of operations that stay clear of these
+   (`rfc_shaped`): the RFC result when the RFC defines one, AN ERROR OTHERWISE - both directions against the RFC itself. *)
+Theorem C15_rfc_error_otherwise : forall fo l t, ops_ok l -> Forall rfc_shaped (map sop_of l) -> klidx_inv t ->
+  match rfc_program strict (f_eq fo) (doc_val t) (map sop_of l) with
+  | Some d' => fst (apply_ops fo t l) = RcOk /\ doc_val (snd (apply_ops fo t l)) = d' /\ klidx_inv (snd (apply_ops fo t l))
+  | None => fst (apply_ops fo t l) <> RcOk /\ klidx_inv (snd (apply_ops fo t l))
+  end.
+Proof. exact patch_program_rfc_exact. Qed.
+Print Assumptions C15_rfc_error_otherwise.
+
+(* [1,2,3,4] with remove "/01", remove "/-", replace "/1x": no rfc6901 index / no such element - JBL_ERROR_PATH_NOTFOUND, tree as it was *)
+Example C15_ex_rfc_error_otherwise :
+  let op k seg v := {| p_op := k; p_path := [seg]; p_from := None; p_val := v |} in
+  klidx_inv ex_doc /\
+  (forall k seg v, In (k, seg, v) [(ORemove, [48; 49], None); (ORemove, [45], None); (OReplace, [49; 120], Some (of_val 5 [118;97;108;117;101] (JI64 9)));
+                                   (OTest, [43; 49], Some (of_val 5 [118;97;108;117;101] (JI64 2)))] ->
+     rfc_shaped (sop_of (op k seg v)) /\ rfc_op strict Z.eqb (doc_val ex_doc) (sop_of (op k seg v)) = None /\
+     fst (apply_op ex_fo ex_doc (op k seg v)) <> RcOk /\ snd (apply_op ex_fo ex_doc (op k seg v)) = ex_doc).
+Proof.
+  cbv zeta. split; [apply of_val_inv1|]. intros k seg v I. cbn [In] in I.
+  repeat (destruct I as [I|I]; [inversion I; subst; split; [split; [split; [discriminate | intros [E|E]; discriminate] | intros E; discriminate]|];
+                                split; [reflexivity|]; split; [discriminate | reflexivity]|]).
+  contradiction.
+Qed.
+
+(* without `rfc_shaped` it stays false at the root: {"a":1} with copy from /zz (missing) onto the root "" - rfc6902: an error; the
+   library ignores move / copy / swap / increment onto the root and answers 0 (kept as its reading, notes/jpatch.md) *)
 Theorem C15_rfc_error_otherwise_refuted : exists fo t o,
-  rfc_kind (p_op o) /\ klidx_inv t /\ op_good o /\ no_root_alias (sop_of o) /\
+  rfc_kind (p_op o) /\ klidx_inv t /\ op_good o /\
   rfc_op strict (f_eq fo) (doc_val t) (sop_of o) = None /\ fst (apply_op fo t o) = RcOk.
 Proof.
-  exists ex_fo, ex_doc, {| p_op := ORemove; p_path := [[48; 49]]; p_from := None; p_val := None |}.
-  split; [right; left; reflexivity|]. split; [apply of_val_inv1|]. split; [intros v H; discriminate|].
-  split; [split; [discriminate | intros [H|H]; discriminate]|]. split; reflexivity.
+  exists ex_fo, (of_val 0 [] (JObj [([97], JI64 1)])), {| p_op := OCopy; p_path := []; p_from := Some [[122; 122]]; p_val := None |}.
+  split; [right; right; right; left; reflexivity|]. split; [apply of_val_inv1|]. split; [intros v H; discriminate|].
+  split; reflexivity.
 Qed.
 Print Assumptions C15_rfc_error_otherwise_refuted.
 
@@ -507,17 +533,18 @@ Qed.
 Print Assumptions C15_decoder_accepts_more_refuted.
 
 (* ================================================================== the documented extensions *)
-(* "Value increment" (iwjson.h): an integer member or array element incremented by an integer, the sum being an int64 - success
-   and the pointer then reads exactly a + b.  (All inputs, doubles included, are covered by C15_patch_any_op_exact / lib_op:
-   ext_increment; this is the read-back form.)  Hypothesis `the sum is an int64`: without it the statement is FALSE of the model
-   and of the library - C15_increment_wraps_refuted. *)
-Theorem C15_increment_int_exact_partial : forall fo t o v a b,
+(* "Value increment" (iwjson.h), integers, ALL of them (since 9a2bde2): when a + b is an int64 the call succeeds and the pointer then
+   reads exactly a + b; otherwise JBL_ERROR_PATCH_INVALID_VALUE and the tree is untouched.  (Doubles - and double operands that cannot
+   be cast to int64: refused - are covered by C15_patch_any_op_exact / lib_op: ext_increment.) *)
+Theorem C15_increment_int_exact : forall fo t o v a b,
   klidx_inv t -> p_op o = OIncrement -> is_root (p_path o) = false -> p_val o = Some v -> good v -> val v = JI64 b ->
-  jget lenient (val t) (p_path o) = Some (JI64 a) -> - 9223372036854775808 <= a + b < 9223372036854775808 ->
-  fst (apply_op fo t o) = RcOk /\ klidx_inv (snd (apply_op fo t o)) /\
-  jget lenient (val (snd (apply_op fo t o))) (p_path o) = Some (JI64 (a + b)).
+  jget lenient (val t) (p_path o) = Some (JI64 a) ->
+  (i64_fits (a + b) = true ->
+     fst (apply_op fo t o) = RcOk /\ klidx_inv (snd (apply_op fo t o)) /\
+     jget lenient (val (snd (apply_op fo t o))) (p_path o) = Some (JI64 (a + b))) /\
+  (i64_fits (a + b) = false -> fst (apply_op fo t o) <> RcOk /\ snd (apply_op fo t o) = t).
 Proof. exact increment_int_exact. Qed.
-Print Assumptions C15_increment_int_exact_partial.
+Print Assumptions C15_increment_int_exact.
 
 (* {"arr":[5,6]} with increment /arr/1 by 2 is {"arr":[5,8]} *)
 Example C15_ex_increment_array :
@@ -527,19 +554,15 @@ Example C15_ex_increment_array :
   doc_val (snd (apply_op ex_fo t o)) = Some (JObj [([97;114;114], JArr [JI64 5; JI64 8])]).
 Proof. cbv zeta. split; [apply of_val_inv1 | split; [apply of_val_good | split; reflexivity]]. Qed.
 
-(* INT64_MAX incremented by 1: rc 0 and INT64_MIN (two's complement wrap-around of `target->vi64 += value->vi64`, a signed overflow
-   in C: the UBSan build of the library aborts on {"n":9223372036854775807} + increment /n 1; fixes/jpatch-increment-overflow.diff) *)
-Theorem C15_increment_wraps_refuted : exists fo t o v a b,
-  klidx_inv t /\ p_op o = OIncrement /\ is_root (p_path o) = false /\ p_val o = Some v /\ good v /\ val v = JI64 b /\
-  jget lenient (val t) (p_path o) = Some (JI64 a) /\ a + b = 9223372036854775808 /\
-  fst (apply_op fo t o) = RcOk /\ jget lenient (val (snd (apply_op fo t o))) (p_path o) = Some (JI64 (- 9223372036854775808)).
-Proof.
-  exists ex_fo, (of_val 0 [] (JObj [([110], JI64 9223372036854775807)])),
-         {| p_op := OIncrement; p_path := [[110]]; p_from := None; p_val := Some (ex_vnode (JI64 1)) |},
-         (ex_vnode (JI64 1)), 9223372036854775807, 1.
-  split; [apply of_val_inv1|]. split; [reflexivity|]. split; [reflexivity|]. split; [reflexivity|].
-  split; [apply of_val_good|]. repeat split; reflexivity.
-Qed.
+(* {"n":9223372036854775807} with increment /n by 1: refused, document as it was; the code before 9a2bde2 (increment_v true:
+   `target->vi64 += value->vi64`, a signed overflow in C, UBSan aborted) answered 0 with INT64_MIN *)
+Theorem C15_increment_wraps_refuted :
+  (let t := of_val 0 [] (JObj [([110], JI64 9223372036854775807)]) in
+   let o := {| p_op := OIncrement; p_path := [[110]]; p_from := None; p_val := Some (ex_vnode (JI64 1)) |} in
+   apply_op ex_fo t o = (RcInvalidValue, t)) /\
+  increment_v true ex_fo (Node 0 [] TI64 9223372036854775807 [] []) (Node 0 [] TI64 1 [] []) =
+    (RcOk, Node 0 [] TI64 (- 9223372036854775808) [] []).
+Proof. split; reflexivity. Qed.
 Print Assumptions C15_increment_wraps_refuted.
 
 (* "Swap values of two nodes" when one location contains the other: no exchange exists; the library answers 0 and the OUTER location
@@ -560,31 +583,15 @@ Proof.
 Qed.
 Print Assumptions C15_swap_nested_refuted.
 
-(* rfc6901 4 / rfc6902 5: a reference token that is no array index ("foo", "01", "1x", "+1"), "-" for an existing element, an index
-   beyond int (4294967296) make the operation an error.  The library reads tokens with iwatoi and "-" as the last element: each of
-   these succeeds (replayed on the library; fixes/jpatch-array-index-strict.diff) - FALSE: "the RFC makes it an error => error". *)
+(* The index reader before eca2cba (arr_index_v true: iwatoi on any text, cast to int) accepted reference tokens that are no rfc6901
+   array index - "foo" as 0, "01" / "1x" / "+1" as 1, "4294967296" as 0 - so add /arr/foo, replace /arr/1x, test /arr/+1 ...
+   succeeded; the reader the library has now (arr_index = arr_index_v false = rfc6901: C15_rfc_error_otherwise) refuses them all. *)
 Theorem C15_array_index_leniency_refuted :
-  let t := of_val 0 [] (JObj [([97;114;114], JArr [JI64 1; JI64 2; JI64 3])]) in
-  let t2 := of_val 0 [] (JArr [JI64 1; JI64 2]) in
-  let arr l := Some (JObj [([97;114;114], JArr l)]) in
-  let op k seg v := {| p_op := k; p_path := [[97;114;114]; seg]; p_from := None; p_val := v |} in
-  let nine := Some (ex_vnode (JI64 9)) in
-  klidx_inv t /\ klidx_inv t2 /\
-  (forall k seg v, In (k, seg, v) [(OAdd, [102;111;111], nine); (OAdd, [48;49], nine); (OReplace, [49;120], nine);
-                                   (OTest, [43;49], Some (ex_vnode (JI64 2))); (ORemove, [45], None)] ->
-     rfc_op strict Z.eqb (doc_val t) (sop_of (op k seg v)) = None /\ fst (apply_op ex_fo t (op k seg v)) = RcOk) /\
-  doc_val (snd (apply_op ex_fo t (op OAdd [102;111;111] nine))) = arr [JI64 9; JI64 1; JI64 2; JI64 3] /\
-  doc_val (snd (apply_op ex_fo t (op OAdd [48;49] nine))) = arr [JI64 1; JI64 9; JI64 2; JI64 3] /\
-  doc_val (snd (apply_op ex_fo t (op OReplace [49;120] nine))) = arr [JI64 1; JI64 9; JI64 3] /\
-  doc_val (snd (apply_op ex_fo t (op ORemove [45] None))) = arr [JI64 1; JI64 2] /\
-  rfc_op strict Z.eqb (doc_val t2) (sop_of {| p_op := OAdd; p_path := [[52;50;57;52;57;54;55;50;57;54]]; p_from := None; p_val := nine |}) = None /\
-  doc_val (snd (apply_op ex_fo t2 {| p_op := OAdd; p_path := [[52;50;57;52;57;54;55;50;57;54]]; p_from := None; p_val := nine |}))
-  = Some (JArr [JI64 9; JI64 1; JI64 2]).
+  forall s, In s [[102;111;111]; [48;49]; [49;120]; [43;49]; [52;50;57;52;57;54;55;50;57;54]; [45]] ->
+  strict_idx s = None /\ arr_index s = None /\ exists i, arr_index_v true s = Some i.
 Proof.
-  cbv zeta. split; [apply of_val_inv1|]. split; [apply of_val_inv1|]. split.
-  - intros k seg v I. cbn [In] in I.
-    repeat (destruct I as [I|I]; [inversion I; subst; split; vm_compute; reflexivity|]). contradiction.
-  - repeat split; vm_compute; reflexivity.
+  intros s I. cbn [In] in I.
+  repeat (destruct I as [I|I]; [subst s; split; [reflexivity|]; split; [reflexivity|]; eexists; vm_compute; reflexivity|]). contradiction.
 Qed.
 Print Assumptions C15_array_index_leniency_refuted.
 
@@ -599,7 +606,7 @@ Theorem C15_identity_model_refines : forall rp fo l next t,
 Proof. exact i_apply_ops_refines. Qed.
 Print Assumptions C15_identity_model_refines.
 
-(* `parent` pointers: with the library's _jbl_copy_node_data (reparent = false; probed: JP_REPARENT = 0) "every child's parent is the
+(* `parent` pointers: with the _jbl_copy_node_data of before 61c2a75 (reparent = false) "every child's parent is the
    node that lists it" is FALSE after an `add` over an existing member holding a container - the children point at the operand node
    of the patch document (replayed: idpatch ... par=bad; with iwjsreg_merge + iwjsreg_replace: heap-use-after-free);
    with the repaired copy (reparent = true, fixes/jpatch-parent-pointers.diff) the same patch leaves them consistent. *)
@@ -643,6 +650,13 @@ Proof.
   - vm_compute. repeat (constructor; [cbn [In]; intuition discriminate|]). constructor.
   - vm_compute. intros x H. repeat (destruct H as [H|H]; [subst x; reflexivity|]). contradiction.
 Qed.
+
+(* `parent` pointers of the library as it is (61c2a75; the probed fact JP_REPARENT = 1): "every child's parent field is the node
+   that lists it" after every program of operations of any kind on every document - unconditionally for consistent inputs *)
+Theorem C15_parent_pointers : forall fo l next t, i_parents_ok t = true -> Forall val_pok l ->
+  i_parents_ok (snd (snd (i_apply_ops lib_reparent fo next t l))) = true.
+Proof. exact apply_ops_pok. Qed.
+Print Assumptions C15_parent_pointers.
 
 (* with the repaired copy (reparent = true) "every child's parent field is the node that lists it" is an invariant: every document,
    every list of operations of any kind whose operand values are consistent trees (parsed patch documents are), after the call -
